@@ -166,6 +166,24 @@ def oracle(sc, res):
     return v
 
 
+FILES = ['theories/Base.v', 'theories/gen/Codec.v', 'theories/gen/Tp21Gen.v', 'theories/gen/CaGen.v', 'theories/CodecGlue.v',
+         'theories/Model21.v', 'theories/Replay21.v', 'proofs/CodecProofs.v', 'proofs/Flat.v', 'proofs/TimerProofs.v']
+
+
+def run(out, tier, rng, work):
+    import sprop
+    out.rule = ('one real ECU under virtual time; histories of up to 12 add_timer/remove_timer/subscribe/unsubscribe operations, '
+                'periods on {1 ms..3 s}, one-shot and periodic, duplicate registrations, operations from inside timer callbacks, idle gaps, '
+                'jitter 1 or 400 us; probe broadcasts make subscriptions observable; oracle: every due instant t_reg + k*delta is served '
+                'within [due, due+J], nothing fires early / after removal / too often; every handler log replayed on the Coq model; '
+                'non-trivial = at least one timer invocation; distinct by scenario hash')
+    out.assumptions = ['A1-A3, A6 of DESIGN.md section 3; scheduling latency is the scenario jitter J',
+                       'remove_timer racing with a pass that already holds the event on another thread is below handler granularity: not exhibited']
+    sprop.run_stateful(out, 'C12', tier, rng, work, FILES, lambda r, k: gen(r, small=(k % 3 == 0)), oracle, 150, 2500,
+                       lambda sc, res: any(e[2] == 'timer' for e in res.trace),
+                       sample=lambda sc, res: dict(script=sc['script'][:4], jit=sc['jit'], timer_invocations=sum(1 for e in res.trace if e[2] == 'timer')))
+
+
 def explore(out, rng, n):
     viol = []
     for k in range(n):
